@@ -123,7 +123,8 @@ fn encryptor_differential(ctx: &Ctx) {
                 });
             }
         } else {
-            let pw = rng.bytes_in(0, 70);
+            // password lengths around the HMAC-SHA-256 block size are always among the cases
+            let pw = match (i / 3) % 6 { 0 => rng.bytes(64), 1 => rng.bytes(63), 2 => rng.bytes(65), 3 => Vec::new(), _ => rng.bytes_in(0, 200) };
             let salt = rng.arr32();
             let case = || json!({"mode": "password", "len": len, "plaintext": hex_short(&pt, 48), "password": hex(&pw), "salt": hex(&salt), "io": io.describe()});
             let run = pass_encrypt_run(&pt, &io, &pw, salt);
@@ -305,7 +306,7 @@ fn decryptor_accepts_spec_files(ctx: &Ctx) {
                 ctx.sample("spec-made file decrypted by kestrel", 2, || case());
             }
         } else {
-            let pw = rng.bytes_in(0, 40);
+            let pw = match (i / 3) % 5 { 0 => rng.bytes(64), 1 => rng.bytes(65), 2 => rng.bytes(128), _ => rng.bytes_in(0, 40) };
             let f = refspec::encode_pass_file(&pw, &rng.arr32(), &pt, &chunking);
             let run = pass_decrypt_run(&f, &io, &pw);
             let case = || json!({"mode": "password", "len": len, "chunking": chunking.iter().take(16).collect::<Vec<_>>(), "password": hex(&pw), "file": hex_short(&f, 200), "result": run.outcome.class()});
